@@ -570,7 +570,10 @@ class Parser:
         ast, macros = self._parse('void __dummy(\n%s\n);' % cdecl)[:2]
         if macros:
             raise CDefError("unexpected '#define' in a type string")
-        exprnode = ast.ext[-1].type.args.params[0]
+        args = ast.ext[-1].type.args
+        if args is None:
+            raise CDefError("expected a type, got an empty string")
+        exprnode = args.params[0]
         if isinstance(exprnode, pycparser.c_ast.ID):
             raise CDefError("unknown identifier '%s'" % (exprnode.name,))
         return self._get_type_and_quals(exprnode.type)
